@@ -31,6 +31,8 @@
 #include <arpa/inet.h>
 #include <limits.h>
 #include <memory>
+#include <sys/wait.h>
+#include <fcntl.h>
 
 namespace exe {
 
@@ -1305,6 +1307,7 @@ int run_c16(Ctx &cx)
     vf::watchdog(0);
     cx.rep.transitions++;
     cx.ncases++;
+    if (cx.ncases == 1 || cx.ncases % 997 == 17) cx.rep.sample(cj, 6);
     cx.rep.outcome(outcome + " findings=" + std::to_string(fs.size()));
     for (auto &f : fs) {
       if (!cx.replay && reported.count(f.key)) continue;
@@ -1374,7 +1377,34 @@ int run_c16(Ctx &cx)
     return cx.failed ? 1 : 0;
   }
 
-  cx.rep.counters["cases_total"] = sp.total;
+  if (cx.args.shard == 0 && cx.args.resume == 0) cx.rep.counters["cases_total"] = sp.total; // counters are summed over shards and restarts
+  // After a crash the driver restarts this shard behind the crashing scenario (which it reports).  From then on every
+  // scenario is first executed in a forked child; the ones that kill the child are skipped and counted, so a defect
+  // reached by hundreds of scenarios costs one restart per shard instead of hundreds.
+  bool careful = cx.args.resume > 0;
+  auto kills   = [&](const Scenario &sc) {
+    fflush(nullptr);
+    pid_t pid = fork();
+    if (pid < 0) return false;
+    if (pid == 0) {
+      __sanitizer_set_death_callback(nullptr);
+      for (int sg : { SIGSEGV, SIGBUS, SIGFPE, SIGILL, SIGABRT, SIGALRM }) signal(sg, SIG_DFL);
+      vf::crashctx().path[0] = 0;
+      vf::partial_writer()   = nullptr;
+      int devnull            = open("/dev/null", O_WRONLY);
+      if (devnull >= 0) {
+        dup2(devnull, 1);
+        dup2(devnull, 2);
+      }
+      alarm(30);
+      std::string o;
+      run_scenario(sc, cx, fam, &o, false);
+      _exit(0);
+    }
+    int st = 0;
+    waitpid(pid, &st, 0);
+    return !(WIFEXITED(st) && WEXITSTATUS(st) == 0);
+  };
   for (unsigned long long idx = (unsigned long long)cx.args.resume; idx < sp.total; idx++) {
     if (idx % (unsigned long long)cx.args.nshards != (unsigned long long)cx.args.shard) continue;
     if ((cx.ncases & 63) == 0 && cx.deadline_hit()) {
@@ -1382,7 +1412,12 @@ int run_c16(Ctx &cx)
       cx.rep.counters["stopped_at"] = idx;
       break;
     }
-    one(idx, sp.get(idx), sp.json(idx));
+    Scenario sc = sp.get(idx);
+    if (careful && kills(sc)) {
+      cx.rep.count("skipped_crashing_scenario");
+      continue;
+    }
+    one(idx, sc, sp.json(idx));
   }
   return 0;
 }
